@@ -280,7 +280,7 @@ impl Ctx {
                 std::process::exit(2);
             }
         }
-        let dir = self.root.join("replays").join(&self.id);
+        let dir = out_root(&self.root).join("replays").join(&self.id);
         let _ = std::fs::create_dir_all(&dir);
         let path = dir.join(format!("{}-{}-{}.json", self.tier.name(), self.part, n));
         let art = json!({
@@ -343,7 +343,7 @@ impl Ctx {
             "wall_s": wall,
             "violations": viol,
         });
-        let dir = self.root.join("evidence").join("parts");
+        let dir = out_root(&self.root).join("evidence").join("parts");
         let _ = std::fs::create_dir_all(&dir);
         let path = dir.join(format!("{}.{}.json", self.id, self.part));
         if let Err(e) = std::fs::write(&path, serde_json::to_string_pretty(&ev).unwrap()) {
@@ -382,6 +382,13 @@ impl Ctx {
 }
 
 /// `finding: property=<id> key=<key> <text>` lines of known_findings.txt.
+/// Where evidence and replay artefacts go: VERIF_OUT if set (used when the checks are run against a
+/// deliberately broken tree, so that the committed evidence of the real tree is not overwritten),
+/// else the verification root. Known findings are always read from the root.
+fn out_root(root: &std::path::Path) -> PathBuf {
+    std::env::var("VERIF_OUT").map(PathBuf::from).unwrap_or_else(|_| root.to_path_buf())
+}
+
 fn load_known(root: &std::path::Path, id: &str) -> Vec<(String, String)> {
     let mut out = Vec::new();
     let Ok(txt) = std::fs::read_to_string(root.join("known_findings.txt")) else {
